@@ -88,6 +88,19 @@ func runStream(st *c13Stream) (viol *explore.Violation, obs string, engErr strin
 		rs := w.TakeBin()
 		if len(rs) != 2 || rs[0].Result != 0 || rs[1].Result != 0 || rs[0].Req[0] != 102 || rs[1].Req[0] != 103 {
 			witnessMsg = fmt.Sprintf("after the attack the witness connection's unlock+lock were answered %s (closed=%v)", binStr(rs), w.Closed)
+			return
+		}
+		// a client arriving afterwards must be able to announce itself and lock
+		nw, err := wire.Dial(addr)
+		if err != nil {
+			witnessMsg = "after the attack a new connection is refused: " + err.Error()
+			return
+		}
+		_ = nw.Send(frame(0, func(b []byte) { b[19], b[34] = 0x77, 0x77 }))
+		_ = nw.Send(wire.BinFrame(hapi.Cmd{Type: 1, Req: 104, Key: 202, Id: 202, Expried: 5}))
+		rs = nw.TakeBin()
+		if len(rs) != 2 || rs[0].Type != 0 || rs[0].Result != 0 || rs[1].Result != 0 || rs[1].Req[0] != 104 {
+			witnessMsg = fmt.Sprintf("after the attack a new connection's INIT + LOCK were answered %s (closed=%v)", binStr(rs), nw.Closed)
 		}
 	})
 	if engErr != "" {
